@@ -51,6 +51,26 @@ fn gen_arg(t: &mut Tape, a: &Arg, s: &[Vec<u64>], p: &[Vec<u64>]) -> Vec<u64> {
         Arg::WordNonZero => vec![gen::word(t).max(1)],
         Arg::UpTo(max) => vec![t.edgy(max)],
         Arg::Bit => vec![t.bool() as u64],
+        Arg::OddBand(n) => {
+            let mut v = t.expand(n);
+            v[n - 1] = t.range(0x6B85_1EB8_51EB_851F, 0x7EB8_51EB_851E_B851);
+            v[0] |= 1;
+            v
+        }
+        Arg::ExpDoubleReduction { base, modulus } => {
+            // as in the IR-level driver: half of the exponents are searched with the oracle-side ladder
+            // model so that the boxed accumulator leaves the loop at or above 2m
+            if t.bool() {
+                let ml = resolve(modulus, s, p);
+                let m = big(ml);
+                let x = big(resolve(base, s, p)) % &m;
+                let x_mont = (x << (64 * ml.len())) % &m;
+                let (off1, off2) = (t.below(15), t.below(16));
+                vec![c09::model::Amm::new(&m, ml.len()).search_double_reduction(&x_mont, off1, off2).0]
+            } else {
+                vec![t.below(4096)]
+            }
+        }
     }
 }
 
@@ -61,6 +81,9 @@ fn tape_for(seed: u64, name: &str, k: u64) -> Tape {
 
 fn selected_quick(op: &Op) -> bool {
     let n = &op.name;
+    if n.contains("ladder result") {
+        return n.ends_with("/1 limbs");
+    }
     selected(op) && (n.ends_with("/U256") || n.ends_with("/I256") || n.starts_with("limb/")) && op.family != "monty-pow"
 }
 
@@ -70,6 +93,9 @@ fn selected(op: &Op) -> bool {
         return false;
     }
     let n = &op.name;
+    if n.contains("ladder result") {
+        return n.ends_with("/1 limbs") || n.ends_with("/2 limbs");
+    }
     let small = n.ends_with("/U64") || n.ends_with("/U256") || n.ends_with("/I256") || n.ends_with("/4 limbs") || n.starts_with("limb/");
     small && !(op.family == "monty-pow" && !n.ends_with("/U64"))
 }
